@@ -30,12 +30,13 @@ def optOf (s : String) : Option String := if s = "" then none else some s
 def revOf (j : Json) : Rev :=
   { name := str j "name", parent := optOf (str j "parent"), number := int j "number", state := stateOf (str j "state"),
     ctrl := optOf (str j "ctrl"), image := str j "image", labels := labelsOf j "labels",
-    fin := bool j "fin" || bool j "deleting", deleting := bool j "deleting" }
+    fin := bool j "fin" || bool j "deleting", deleting := bool j "deleting", extra := labelsOf j "extra" }
 
 def revJson (r : Rev) : Json := Json.mkObj [
   ("name", .str r.name), ("parent", .str (r.parent.getD "")), ("number", .num (Lean.JsonNumber.fromInt r.number)),
   ("state", .str (stateStr r.state)), ("ctrl", .str (r.ctrl.getD "")), ("image", .str r.image),
-  ("labels", labelsJson r.labels), ("fin", .bool r.fin), ("deleting", .bool r.deleting)]
+  ("labels", labelsJson r.labels), ("fin", .bool r.fin), ("deleting", .bool r.deleting),
+  ("extra", labelsJson r.extra)]
 
 def specOf (j : Json) : Spec :=
   { source := str j "source"
@@ -43,7 +44,8 @@ def specOf (j : Json) : Spec :=
     policy := match str j "policy" with | "Automatic" => .automatic | "Manual" => .manual | _ => .unset
     pull := match str j "pull" with | "Always" => .always | "Never" => .never | "IfNotPresent" => .ifNotPresent | _ => .unset
     paused := bool j "paused"
-    labels := labelsOf j "labels" }
+    labels := labelsOf j "labels"
+    extra := labelsOf j "extra" }
 
 def pkgOf (j : Json) : Pkg :=
   { name := str j "name", uid := str j "uid", spec := specOf (obj j "spec"),
